@@ -421,6 +421,8 @@ static void* c8_worker(void* arg) {
   static const op_t OPS8[] = {OP_AUTO, OP_ROTATE, OP_COPY, OP_NEGATE, OP_ADD, OP_SUB, OP_BIG_AUTO, OP_BIG_ROTATE, OP_BIG_ADD, OP_BIG_SUB};
   for (int it = 0; it < c->iters; it++) {
     const op_t op = OPS8[(unsigned)it % ARRAY_LEN(OPS8)];
+    // the threads start every fourth iteration together (all of them run the same entry point in the same iteration)
+    if ((it & 3) == 0) pthread_barrier_wait(c->bar);
     if (op_is_big(op) && !c->big_ok) continue;
     for (uint64_t i = 0; i < 3 * N; i++) {
       x[i] = x0[i] = rng_sbits(&r, 60);
